@@ -87,6 +87,24 @@ def main():
                     break
                 tot += p
             else:
+                # edge intervals: lower end exactly 0 (the state of the accumulator before the first unit), lower end at the edge of the
+                # support, zero-length interval
+                edges = [(pts[len(pts) // 3], 0.0), (pts[-1], 0.0), (pts[len(pts) // 2], pts[len(pts) // 2])]
+                if ref.support[0] != -math.inf:
+                    edges.append((pts[len(pts) // 3], float(ref.support[0])))
+                for b, a in edges:
+                    if b < a:
+                        continue
+                    try:
+                        p = float(d.prob_mw(interval(b, a)))
+                    except Exception as exc:
+                        ck.fail("prob-raises", dict(inp, interval=[a, b]), f"{type(exc).__name__}: {exc}")
+                        continue
+                    want = ref.cdf(b) - ref.cdf(a)
+                    ck.evaluations += 1
+                    ck.count("edge-intervals")
+                    if not close(p, want, 1e-6, 1e-9):
+                        ck.fail("interval-probability", dict(inp, interval=[a, b]), f"prob_mw = {p!r}, F(value) - F(previous) = {want!r}")
                 whole = float(d.prob_mw(interval(pts[-1], pts[0])))
                 if not close(tot, whole, 1e-7, 1e-9):
                     ck.fail("intervals-do-not-telescope", inp, f"sum of consecutive intervals {tot}, whole interval {whole}")
